@@ -72,9 +72,9 @@ Theorem C02_assign_level : forall bexec cfg vs infos i n (e : expr F),
   assoc_mem (to_lowercase n) vs = false ->
   let name := to_lowercase n in
   let tokens := missing_token_adder (token_cleaner infos (assign_toks n e)) in
-  exists vs1 vs2,
-    parse tokens vs = (PAst (AAssignment name (ast_of e)), vs1) /\
-    execute_ast bexec cfg vs1 (AAssignment name (ast_of e)) =
+  exists vs2,
+    parse tokens vs = (PAst (AAssignment name [TText n] (ast_of e)), vs) /\
+    execute_ast bexec cfg vs (AAssignment name [TText n] (ast_of e)) =
       Ok (IOk (AItem (INumber (denote e) Decimal)), vs2) /\
     assoc name vs2 =
       Some {| v_tokens := [TText n]; v_data := AItem (INumber (denote e) Decimal) |}.
